@@ -324,6 +324,7 @@ func (e *Exec) snapshot0(phase, txKind string) *AppState {
 	st, err := e.reps[0].app.Snapshot()
 	quiesce()
 	if err != nil {
+		e.res.Stats.C("blind_runs", 1)
 		e.addViol(viol("C11", "state-undecodable", e.step, map[string]string{"phase": phase}, "working state cannot be decoded: %v", err))
 		e.stopped = true
 		return nil
